@@ -233,6 +233,18 @@ def case_strategy(draw):
         reps = [base[draw(st.integers(0, k - 1))] for _ in range(draw(st.integers(1, 8)))]
         allp = list(draw(st.permutations(base + reps)))
         return dict(family='duplicates-L0', ra=[p[0] for p in allp], dec=[p[1] for p in allp], L=0.0, chunksize=None)
+    if special in (3, 4):
+        # round 11: linking lengths of a few 1e-9 degrees (sub-milliarcsecond: repeated astrometric solutions of one source): a chain along a
+        # meridian with gaps of 0.5 .. 1.5 linking lengths - "do not exceed" holds at every scale, there is no absolute slack
+        L = draw(st.sampled_from([1e-9, 3e-9, 1e-8, 2e-9]))
+        r0 = draw(st.sampled_from([100.0, 0.0, 359.999999, 17.25]))
+        d0 = draw(st.sampled_from([0.0, 30.0, -45.5]))
+        gaps = [draw(st.sampled_from([0.9, 1.04, 0.5, 1.5, 0.97, 1.06, 1.2])) for _ in range(draw(st.integers(2, 8)))]
+        decs = [d0]
+        for g_ in gaps:
+            decs.append(decs[-1] + g_ * L)
+        order = draw(st.permutations(list(range(len(decs)))))
+        return dict(family='tiny-L', ra=[r0 for _ in order], dec=[decs[i] for i in order], L=L, chunksize=draw(st.sampled_from([None, 0.1, 1.0])))
     if special == 1:
         # a strip narrow in declination and wide in RA with a small explicit chunk size: more than 32767 RA chunks in a slice
         L = draw(st.sampled_from([0.002, 0.0015]))
